@@ -170,6 +170,9 @@ pub fn coherent(r: &RawBpb) -> Result<Geo, String> {
         if r.fsinfo >= r.reserved || r.backup >= r.reserved {
             return Err("fsinfo/backup outside reserved area".into());
         }
+        if r.ext_flags & 0x80 != 0 && u32::from(r.ext_flags & 0x0F) >= u32::from(r.nfats) {
+            return Err(format!("mirroring disabled and active FAT {} of {}", r.ext_flags & 0x0F, r.nfats));
+        }
         if r.root_entries != 0 {
             return Err("root entries on FAT32".into());
         }
